@@ -4,3 +4,6 @@ pub mod rng;
 pub mod util;
 pub mod drive;
 pub mod irdump;
+pub mod allowmodel;
+pub mod cgen;
+pub mod inventory;
